@@ -327,6 +327,36 @@ def c09_stacks(quick, r):
         return ModeWrapper(Plain(XTransformWrapper(ImgDS(8, "tensor16", collators=[col]), mk())), mode="x")
 
     S.append(("Mode(Plain(X(noise))) + root KDMixCollator", (lambda: with_collator(leaves["KDAdditiveGaussianNoise"][0])), "collate"))
+
+    # collators registered through the containers (compose collator, single-collator wrapper)
+    from kappadata.collators.base.kd_compose_collator import KDComposeCollator
+    from kappadata.collators.base.kd_single_collator_wrapper import KDSingleCollatorWrapper
+
+    def mixcol():
+        return KDMixCollator(mixup_alpha=1.0, mixup_p=1.0, apply_mode="sample", lamb_mode="sample", shuffle_mode="random")
+
+    def with_container(kind):
+        if kind == "compose":
+            col = KDComposeCollator([mixcol(), mixcol()], dataset_mode="x", return_ctx=False)
+        else:
+            col = KDSingleCollatorWrapper(mixcol(), dataset_mode="x", return_ctx=False)
+        return ModeWrapper(XTransformWrapper(ImgDS(8, "tensor16", collators=[col]), leaves["KDAdditiveGaussianNoise"][0]()), mode="x")
+
+    S.append(("Mode(X(noise)) + root KDComposeCollator[mix, mix]", (lambda: with_container("compose")), "collate"))
+    S.append(("Mode(X(noise)) + root KDSingleCollatorWrapper(mix)", (lambda: with_container("wrapper")), "collate"))
+
+    # two different wrapper stacks over the SAME root dataset inside the interleaved concat dataset
+    def interleaved_shared_root(mk, k):
+        root = ImgDS(4, k)
+        main = ModeWrapper(XTransformWrapper(root, mk()), mode="x")
+        side = ModeWrapper(XTransformWrapper(root, cont["compose"][0](mk)), mode="x")
+        s = InterleavedSampler(main_sampler=SequentialSampler(main), batch_size=2, epochs=1,
+                               configs=[InterleavedSamplerConfig(sampler=SequentialSampler(side), every_n_epochs=1)])
+        return s.dataset
+
+    mk0, k0 = leaves[names[0]]
+    S.append((f"InterleavedConcat(two stacks over one root: X({names[0]}), X(compose({names[0]})))",
+              (lambda: interleaved_shared_root(mk0, k0)), "concat8"))
     for n in names[:3]:
         mk, k = leaves[n]
         S.append((f"InterleavedConcat(X({n}),X(compose({n})))", (lambda mk=mk, k=k: interleaved(mk, k)), "concat7"))
@@ -348,7 +378,7 @@ def c09_trace(tid, name, build, item, r, nreq):
         gw.perturb_globals(r.randint(0, 10 ** 6))
         base = build()
         n = 3 if item == "mode" else len(base)
-        indexed = item in ("mode", "concat7")
+        indexed = item in ("mode", "concat7", "concat8")
         if item == "collate":
             n = 8
         for sameseed in (False, True):
@@ -360,7 +390,7 @@ def c09_trace(tid, name, build, item, r, nreq):
                 c = copy.deepcopy(base)
                 gw.perturb_globals(ws)  # what the DataLoader does in a worker before calling worker_init_fn
                 kw = dict(batch_size=2, world_size=1, drop_last=True, updates=100000)
-                if item != "concat7":  # the interleaved concat dataset passes each part's own length itself
+                if item not in ("concat7", "concat8"):  # the interleaved concat dataset passes each part's own length
                     kw["dataset_len"] = n
                 c.worker_init_fn(0, **kw)
                 st0.append({p: gw.gen_state(g) for p, g in gw.walk_generators(c).items()})
